@@ -465,10 +465,14 @@ impl ValueTable {
 
 			let mut next = last_removed;
 			while next != 0 {
-				if next >= filled {
+				self.check_free_link(next, filled)?;
+				// The list has no more members than the table has slots: a longer walk goes in
+				// circles (the links come from the file and may be anything in a damaged table).
+				if stack.len() as u64 >= filled {
 					return Err(crate::error::Error::Corruption(format!(
-						"Bad removed ref {} out of {}",
-						next, filled
+						"Free list of {} entries in a table of {}",
+						stack.len(),
+						filled
 					)))
 				}
 
@@ -714,6 +718,7 @@ impl ValueTable {
 		let mut buf = PartialEntry::new_uninit();
 		let filled = self.filled.load(Ordering::Relaxed);
 		if !log.value(self.id, index, buf.as_mut()) {
+			self.check_free_link(index, filled)?;
 			self.file.read_at(buf.as_mut(), index * self.entry_size as u64)?;
 		}
 		buf.skip_size();
@@ -725,6 +730,19 @@ impl ValueTable {
 			)))
 		}
 		Ok(next)
+	}
+
+	// A member of the free list that is about to be read from the file lies below the fill mark
+	// and inside the file. Head and links come from the table header and from tombstones: in a
+	// table written from a damaged log record they may be anything.
+	fn check_free_link(&self, index: u64, filled: u64) -> Result<()> {
+		if index >= filled || index >= self.file.capacity.load(Ordering::Relaxed) {
+			return Err(crate::error::Error::Corruption(format!(
+				"Bad removed ref {} out of {}",
+				index, filled
+			)))
+		}
+		Ok(())
 	}
 
 	pub fn read_next_part(&self, index: u64, log: &LogWriter) -> Result<Option<u64>> {
@@ -1084,7 +1102,14 @@ impl ValueTable {
 		if index == 0 {
 			let mut header = Header::default();
 			log.read(&mut header.0)?;
-			// TODO: sanity check last_removed and filled
+			// The head of the free list is a slot below the fill mark.
+			if header.last_removed() != 0 && header.last_removed() >= header.filled() {
+				return Err(crate::error::Error::Corruption(format!(
+					"Bad table header in log: free slot {} out of {}",
+					header.last_removed(),
+					header.filled()
+				)))
+			}
 			return Ok(())
 		}
 		let mut buf = FullEntry::new_uninit_full_entry();
@@ -1246,10 +1271,11 @@ impl ValueTable {
 		let mut next = self.last_removed.load(Ordering::Relaxed);
 		let mut len = 0;
 		while next != 0 {
-			if next >= written {
+			self.check_free_link(next, written)?;
+			if len >= written {
 				return Err(crate::error::Error::Corruption(format!(
-					"Bad removed ref {} out of {}",
-					next, written
+					"Free list of {} entries in a table of {}",
+					len, written
 				)))
 			}
 			let mut buf = PartialEntry::new_uninit();
